@@ -1,5 +1,5 @@
 SPECIFICATION TSpec
-CONSTANTS Threads = {0,1,2,3,4,5,6,7,8,9,10,11,12,13,14,15,16}
+CONSTANTS Threads = {1,2,3,4,5,6,7,8,9,10,11,12,13,14,15,16,17}
 CONSTRAINT HighWater
 POSTCONDITION Accepted
 INVARIANT TypeOK
